@@ -250,8 +250,63 @@ class DhcpHistory(Suite):
                 ops.append("t:%d" % rng.choice([0, 1, 150, 299, 300, 301, 900, 86400, 86401]))
         return "dhcp t0=%d cfg=%s ops=%s" % (rng.choice([1000000000, 1700000000]), cfg.encode().hex(), ";".join(ops))
 
+    def gen_multi(self, rng, tier):
+        """a client that comes to hold several unexpired leases inside the pool it is finally served from (sibling pools
+        keyed on the class identifier, a catch-all sibling whose range covers them), and then names one of them"""
+        base = 0xc0000200
+        sip = base + 1
+        k = rng.choice([2, 2, 3])
+        names = ["one", "two", "three"][:k]
+        starts = [base + 10 * (i + 1) for i in range(k)]
+        cfg = "dhcp-policies:\n"
+        for nm, st in zip(names, starts):
+            cfg += '  - match-class-id: "%s"\n    apply-range: { start: %s, end: %s }\n' % (nm, ip(st), ip(st + 2))
+        cfg += "  - match-subnet: 192.0.2.0/24\n    apply-range: { start: %s, end: %s }\n" % (ip(starts[0]), ip(starts[-1] + 2))
+        mac = bytes([0, 0, 0x5e, 0, 0x53, rng.randrange(4)])
+        cid = rbytes(rng, 7) if rng.random() < 0.3 else None
+
+        def pkt(t, cls, want, via_ciaddr=False, sid=True):
+            m = {"op": 1, "htype": 1, "hops": 0, "xid": rng.randrange(2 ** 32), "secs": 0, "flags": rng.choice([0, 0x8000]),
+                 "ciaddr": want if via_ciaddr else 0, "yiaddr": 0, "siaddr": 0, "giaddr": 0, "chaddr": mac, "hlen": 6, "sname": b"", "file": b""}
+            opts = {53: bytes([t]), 55: bytes([1, 3, 6, 51])}
+            if cid is not None:
+                opts[61] = cid
+            if cls is not None:
+                opts[60] = cls.encode()
+            if want is not None and not via_ciaddr:
+                opts[50] = want.to_bytes(4, "big")
+            if t == 3 and sid and not via_ciaddr:
+                opts[54] = sip.to_bytes(4, "big")
+            m["opts"] = sorted(opts.items())
+            return "p:%d:%d:-:-:%s" % (sip, sip, hexs(dhcpwire.wire(m)))
+        ops = []
+        held = []
+        order = list(range(k))
+        rng.shuffle(order)
+        for i in order:
+            want = starts[i] + rng.randrange(3)
+            if rng.random() < 0.5:
+                ops.append(pkt(1, names[i], want))
+            ops.append(pkt(3, names[i], want, sid=rng.random() < 0.7))
+            held.append(want)
+            ops.append("t:%d" % rng.choice([0, 1, 10, 150, 280]))
+        # now, from the catch-all pool, name one of the leases held (the oldest most often), or none at all
+        for _ in range(rng.choice([1, 2, 3])):
+            want = rng.choice([held[0], held[0], rng.choice(held), None])
+            r = rng.random()
+            if r < 0.3 and want is not None:
+                ops.append(pkt(1, None, want))
+                ops.append(pkt(3, None, want))
+            elif r < 0.75:
+                ops.append(pkt(3, None, want, sid=rng.random() < 0.5))
+            else:
+                ops.append(pkt(3, None, want, via_ciaddr=want is not None))
+            if rng.random() < 0.4:
+                ops.append("t:%d" % rng.choice([1, 100, 301]))
+        return "dhcp t0=%d cfg=%s ops=%s" % (1700000000, cfg.encode().hex(), ";".join(ops))
+
     def gen(self, rng, n, tier):
-        return [self.gen_one(rng, tier) for _ in range(n)]
+        return [self.gen_multi(rng, tier) if rng.random() < 0.08 else self.gen_one(rng, tier) for _ in range(n)]
 
     def nontrivial(self, inp, obs):
         return "ok~" in obs
